@@ -126,7 +126,7 @@ type engine struct {
 	srv     *rt.Server
 }
 
-const long = 6 * time.Second
+var long = stack.Patience(6 * time.Second)
 
 type world struct {
 	e     *engine
@@ -471,7 +471,7 @@ func (e *engine) behaviour(acts []Act, obsAt func(i int) *Obs) bool {
 			go func(c *rt.Client) { defer func() { recover(); close(done) }(); _ = c.C.Close() }(cl)
 			select {
 			case <-done:
-			case <-time.After(2 * time.Second):
+			case <-time.After(stack.Patience(2 * time.Second)):
 			}
 		}
 	}()
